@@ -62,8 +62,14 @@ def rs_describe(sess, evs, idx):
 
 def hist_to_session(sid, ops, rng, universe):
     out = []
+    # in some sessions a repeated operation is submitted as the byte-identical text
+    # (the body version is then a function of the operation, not of its position)
+    stable = rng.random() < 0.35
     for i, op in enumerate(ops):
-        rules = [{"name": r["name"], "sal": r["sal"], "desc": "d%d-%s" % (i + 1, r["name"]), "ver": i + 1}
+        v = i + 1
+        if stable:
+            v = 100 + (sum(ord(c) for c in json.dumps(op, sort_keys=True)) % 800)
+        rules = [{"name": r["name"], "sal": r["sal"], "desc": "d%d-%s" % (v, r["name"]), "ver": v}
                  for r in op.get("rules", [])]
         o = {"kind": op["kind"], "rules": rules, "names": op.get("names", [])}
         if op["kind"] == "bad":
@@ -256,7 +262,8 @@ def check_c10(run):
     sessions = []
 
     def add(text, cls, declared=None):
-        s = {"id": len(sessions) + 1, "kind": "compile", "class": cls, "base": base, "declared": declared or []}
+        s = {"id": len(sessions) + 1, "kind": "compile", "class": cls, "base": base, "declared": declared or [],
+             "selffirst": rng.random() < 0.35}
         if isinstance(text, bytes):
             try:
                 s["text"] = text.decode("utf-8")
